@@ -12,10 +12,14 @@ EXTENDS Naturals, FiniteSets, TLC
 
 Classes ==
   [ pattern   |-> {"valid", "empty", "bare_ellipsis", "unclosed", "number_type", "contextual", "bad_selector",
-                   "skipped_token_then_ellipsis", "lone_sigil", "multibyte"},
+                   "skipped_token_then_ellipsis", "lone_sigil", "multibyte",
+                   \* no pattern at all: the rule's only kind is the parser's ERROR kind (numbered above the grammar's kinds)
+                   "none_kind_error", "none_any_error"},
     kind      |-> {"absent", "valid", "unknown", "list_type", "empty"},
     regex     |-> {"absent", "valid", "invalid", "empty", "lookaround"},
-    nthChild  |-> {"absent", "one", "anb", "overflow", "garbage", "negative", "of_self_util", "zero", "object_missing_position"},
+    nthChild  |-> {"absent", "one", "anb", "overflow", "garbage", "negative", "of_self_util", "zero", "object_missing_position",
+                   \* formulas at the limits of the number type
+                   "anb_min_offset", "anb_max_both", "anb_neg_step_max", "numeric_beyond_u32"},
     range     |-> {"absent", "valid", "reversed", "huge"},
     has       |-> {"absent", "valid", "bad_field", "bad_stopby", "stopby_rule", "field_on_follows", "empty_object"},
     matches   |-> {"absent", "undefined", "local_ok", "self_cycle", "mutual_cycle", "cycle_via_relation",
@@ -27,7 +31,9 @@ Classes ==
                    "convert_snake", "convert_camel", "convert_kebab", "convert_pascal", "convert_upper", "convert_capitalize",
                    "convert_separated", "substring_negative", "substring_crossed", "substring_reversed", "replace_valid", "chain"},
     fix       |-> {"absent", "string", "object", "expand_bad_rule", "number_type", "undefined_var", "sigils_only"},
-    rewriters |-> {"absent", "valid", "duplicate_ids", "no_fix", "recursive", "clash_with_util"},
+    rewriters |-> {"absent", "valid", "duplicate_ids", "no_fix", "recursive", "clash_with_util",
+                   \* rewriters used by a rewrite transformation whose fixes widen the edit beyond the rewritten text / overlap
+                   "expand_start_outside", "expand_end_outside", "expand_both_joined", "used_overlapping"},
     severity  |-> {"default", "off", "invalid", "error"},
     globs     |-> {"absent", "valid", "invalid_glob", "wrong_type"},
     ident     |-> {"present", "missing", "empty", "duplicate_in_file"},
